@@ -479,7 +479,8 @@ pub fn gen_clientread(ctx: &crate::Ctx) {
         for _ in 0..rng.below(3) { b.extend(format!("x-h{}: v{}\r\n", rng.below(9), rng.below(99)).as_bytes()); }
         match rng.below(3) {
             0 => { b.extend(format!("content-length: {}\r\n\r\n", body.len()).as_bytes()); b.extend(&body); }
-            1 => { b.extend(b"transfer-encoding: chunked\r\n\r\n"); let e = crate::s_body::encode_chunked(&mut rng, &body); b.extend(e); }
+            1 => { b.extend(*rng.pick(&[&b"transfer-encoding: chunked\r\n\r\n"[..], b"Transfer-Encoding: Chunked\r\n\r\n", b"TRANSFER-ENCODING:CHUNKED\r\n\r\n", b"transfer-encoding: chunked \r\n\r\n", b"transfer-encoding: gzip, chunked\t\r\n\r\n"]));
+                   let e = crate::s_body::encode_chunked(&mut rng, &body); b.extend(e); }
             _ => { b.extend(b"\r\n"); b.extend(&body); }
         }
         let head_len = b.windows(4).position(|w| w == b"\r\n\r\n").unwrap() + 4;
